@@ -23,8 +23,8 @@ type c15Case struct {
 	Post   []string   // base statements after the block
 }
 
-var c15Base = []string{"a", "a: x", "a -> b", "classes: {k: {style.fill: red}}", "a.class: k", "*.style.opacity: 0.3", "***.shape: circle", "vars: {v: 1}", "b.style.stroke: blue", "(* -> *)[*].style.stroke: red", "(a -> *)[*]: lbl"}
-var c15Board = []string{"c", "a: y", "a: null", "(a -> b)[0]: null", "a -> c", "classes.k.style.fill: blue", "d: ${v}", "**.style.stroke: green", "c.class: k", "a.style.opacity: 0.9", "b: null"}
+var c15Base = []string{"a", "a: x", "a -> b", "classes: {k: {style.fill: red}}", "a.class: k", "*.style.opacity: 0.3", "***.shape: circle", "vars: {v: 1}", "b.style.stroke: blue", "(* -> *)[*].style.stroke: red", "(a -> *)[*]: lbl", "a.e -> b"}
+var c15Board = []string{"c", "a: y", "a: null", "(a -> b)[0]: null", "a -> c", "classes.k.style.fill: blue", "d: ${v}", "**.style.stroke: green", "c.class: k", "a.style.opacity: 0.9", "b: null", "a.e: null"}
 
 func (c c15Case) text() string {
 	var sb strings.Builder
@@ -168,7 +168,7 @@ func c15Oracle(in string) eng.Res {
 func init() {
 	eng.Register(&eng.Check{
 		ID: "C15", Level: "exploration",
-		Rule: "every program made of ≤2 base statements before the board block (9-statement base fragment: objects, label, connection, class definition and use, * glob, *** glob, vars, style) × board kind {layers, scenarios, steps} (incl. two connection globs) × 1–2 boards each holding ≤2 (quick: second board ≤1) statements of the 11-statement board fragment (add, relabel, delete object, delete connection, connect to new object, change class, use variable, ** glob, use class, style, delete other endpoint) × ≤1 base statement after the block; oracle (all through the real compiler, order-insensitive canonical content): root board == program without the block; scenario == preceding base + own statements; step i == preceding base + steps 1..i; layer == preceding classes/vars/*** globs + own statements",
+		Rule: "every program made of ≤2 base statements before the board block (12-statement base fragment: objects, label, connection, a connection from a nested object, class definition and use, * glob, *** glob, vars, style, two connection globs) × board kind {layers, scenarios, steps} (incl. two connection globs) × 1–2 boards each holding ≤2 (quick: second board ≤1) statements of the 12-statement board fragment (add, relabel, delete object, delete a nested object that the base connects, delete connection, connect to new object, change class, use variable, ** glob, use class, style, delete other endpoint) × ≤1 base statement after the block; oracle (all through the real compiler, order-insensitive canonical content): root board == program without the block; scenario == preceding base + own statements; step i == preceding base + steps 1..i; layer == preceding classes/vars/*** globs + own statements",
 		Assumptions: []string{"a board whose standalone twin does not compile is not compared", "what a board inherits from base statements written AFTER the board block is not asserted for boards (only that the root board has them)"},
 		Oracles: map[string]eng.Oracle{"boards": c15Oracle},
 		Run: func(w *eng.W) {
